@@ -94,6 +94,9 @@ def dims (lo D : Nat) : List Nat := List.range' lo (D + 1 - lo)
 /-- the constants divide by `d`, `d - 1`, `N - 2`, `N`: they are finite exactly when this holds -/
 def constsOk (N : Nat) (ds : List Nat) : Bool := decide (3 ≤ N) && ds.all (fun d => decide (2 ≤ d))
 
+/-- `C` and `_C_second` only divide by `d`, `d - 1` and `N` -/
+def sizesOk (N : Nat) (ds : List Nat) : Bool := decide (1 ≤ N) && ds.all (fun d => decide (2 ≤ d))
+
 /-! ## expected statistics -/
 
 /-- `expected_degree(per_node=True, d=ds)[i]` -/
